@@ -17,6 +17,17 @@ import (
 	"pgregory.net/rapid"
 )
 
+// replayHistory evaluates the cases a replay file lists as "history" (a failure that depends
+// on earlier calls in the process) before the case itself is evaluated.
+func replayHistory[T any](p string, eval func(T) []pbt.Violation) {
+	for _, raw := range pbt.LoadReplayHistory(p) {
+		var k T
+		if json.Unmarshal(raw, &k) == nil {
+			eval(k)
+		}
+	}
+}
+
 func loadCase[T any](t *testing.T, p string) T {
 	var k T
 	raw, err := pbt.LoadReplay(p)
@@ -85,7 +96,7 @@ func evalC13(k c13Case) []pbt.Violation {
 				// third process: the output directories hold longer files of an earlier run
 				files, note := filesViaCLI(k.Text, inproc.Langs, first.Files)
 				if files == nil {
-					return []pbt.Violation{{Signature: "cli-fails-where-library-succeeds", Detail: note}}
+					return []pbt.Violation{{External: true, Signature: "cli-fails-where-library-succeeds", Detail: note}}
 				}
 				trees = files
 			} else {
@@ -93,7 +104,7 @@ func evalC13(k c13Case) []pbt.Violation {
 				os.RemoveAll(dir)
 			}
 			if r.Exit != 0 {
-				return []pbt.Violation{{Signature: "cli-fails-where-library-succeeds", Detail: fmt.Sprintf("exit %d: %s", r.Exit, clip(string(r.Stdout)+string(r.Stderr), 300))}}
+				return []pbt.Violation{{External: true, Signature: "cli-fails-where-library-succeeds", Detail: fmt.Sprintf("exit %d: %s", r.Exit, clip(string(r.Stdout)+string(r.Stderr), 300))}}
 			}
 			if ref == nil {
 				ref = trees
@@ -172,11 +183,12 @@ func TestC13(t *testing.T) {
 		"well-formed programs biased to >=3 packets, several match fields per packet and several referenced packets per packet; each is compiled 8 times in one process (Go re-randomises map iteration on every range) and, for a sample, by 3 CLI processes; all file maps must be byte-identical. Non-trivial = >=3 packets and a packet with >=2 match fields or >=2 distinct referenced packets; distinct = hash of DSL text.",
 		"map orders can only be sampled, not enumerated: a 2-entry map escapes 8 runs with probability 2^-7 per program", "the C++ generator stamps the current year; runs inside one check share it")
 	if p := pbt.ReplayPath(); p != "" {
-		c.Direct(t, func() { k := loadCase[c13Case](t, p); c.Eval(); c.Report(pbt.DirectTB(t), k, evalC13(k)) })
+		c.Direct(t, func() { replayHistory(p, evalC13); k := loadCase[c13Case](t, p); c.Eval(); c.Report(pbt.DirectTB(t), k, evalC13(k)) })
 		return
 	}
 	avoid := pbt.AvoidTags("C13", "C11")
 	c.SetRecheck(func(k any) []pbt.Violation { return evalC13(k.(c13Case)) })
+	c.SetPure()
 	c.ReplayKnown(t, func(raw json.RawMessage) []pbt.Violation {
 		var k c13Case
 		_ = json.Unmarshal(raw, &k)
@@ -271,7 +283,7 @@ func evalC14(k c14Case) []pbt.Violation {
 		}
 		r := cli.Run(dir, 60*time.Second, nil, nil, cli.Bin(), args...)
 		if r.Exit != 0 {
-			return []pbt.Violation{{Signature: "cli-fails-where-library-succeeds", Detail: fmt.Sprintf("shared directory, subset %v exit %d: %s", k.Subset, r.Exit, clip(string(r.Stdout), 300))}}
+			return []pbt.Violation{{External: true, Signature: "cli-fails-where-library-succeeds", Detail: fmt.Sprintf("shared directory, subset %v exit %d: %s", k.Subset, r.Exit, clip(string(r.Stdout), 300))}}
 		}
 		if d := inproc.FilesEqual(want, cli.ReadTree(filepath.Join(dir, "all"))); d != "" {
 			return []pbt.Violation{{Signature: "shared-directory-interference", Detail: fmt.Sprintf("targets %v written into one directory: the tree is not the union of what each target writes alone: %s", k.Subset, d)}}
@@ -280,7 +292,7 @@ func evalC14(k c14Case) []pbt.Violation {
 		trees, r, dir := compileCLI(k.Text, k.Subset, true)
 		defer os.RemoveAll(dir)
 		if r.Exit != 0 {
-			return []pbt.Violation{{Signature: "cli-fails-where-library-succeeds", Detail: fmt.Sprintf("subset %v exit %d: %s", k.Subset, r.Exit, clip(string(r.Stdout), 300))}}
+			return []pbt.Violation{{External: true, Signature: "cli-fails-where-library-succeeds", Detail: fmt.Sprintf("subset %v exit %d: %s", k.Subset, r.Exit, clip(string(r.Stdout), 300))}}
 		}
 		for _, l := range k.Subset {
 			if d := inproc.FilesEqual(solo[l], trees[l]); d != "" {
@@ -335,11 +347,12 @@ func TestC14(t *testing.T) {
 		"well-formed programs (biased to fixed strings: zchar, NUL/declared padding, pad options, MetaData-shared types) x a random history of up to 12 generator runs over ONE parsed model (state machine; invariant after every step: output == output of that generator alone on a fresh parse, deep model snapshot unchanged) and, for a sample, a random subset of the 6 output flags through the CLI (tree of L under the subset == tree of L alone). Non-trivial = history with >=2 different generators and a program containing a fixed-string field; distinct = hash of (text, history, subset).",
 		"the reference output of a generator is its output on a fresh parse with no other generator run")
 	if p := pbt.ReplayPath(); p != "" {
-		c.Direct(t, func() { k := loadCase[c14Case](t, p); c.Eval(); c.Report(pbt.DirectTB(t), k, evalC14(k)) })
+		c.Direct(t, func() { replayHistory(p, evalC14); k := loadCase[c14Case](t, p); c.Eval(); c.Report(pbt.DirectTB(t), k, evalC14(k)) })
 		return
 	}
 	avoid := pbt.AvoidTags("C14", "C11", "C13")
 	c.SetRecheck(func(k any) []pbt.Violation { return evalC14(k.(c14Case)) })
+	c.SetPure()
 	c.ReplayKnown(t, func(raw json.RawMessage) []pbt.Violation {
 		var k c14Case
 		_ = json.Unmarshal(raw, &k)
@@ -435,11 +448,12 @@ func TestC08(t *testing.T) {
 		"a well-formed program is rendered twice with independent draws of the meaning-preserving rewrites C08 lists (type alias, string/char[], zchar vs @rightPad('\\x00'), explicit default padding vs none, () vs (' ') pad argument, inline vs prefixed attribute, explicit default options vs none, key list vs expanded pairs, single key vs one-element list, MetaData-typed field vs inlined type, optional ; and , separators, whitespace, comments, doc strings kept identical), each at a random subset of sites; the six generators' file maps of the two texts must be byte-identical. Non-trivial = the two texts differ in at least one non-whitespace rewrite and the program has a packet with fields; distinct = hash of the two texts. To isolate root causes, one case in two restricts the second rendering to a single rewrite kind.",
 		"doc strings are kept identical in both renderings (dropping one is not among the listed rewrites)", "needs C13 (determinism) to hold")
 	if p := pbt.ReplayPath(); p != "" {
-		c.Direct(t, func() { k := loadCase[c08Case](t, p); c.Eval(); c.Report(pbt.DirectTB(t), k, evalC08(k)) })
+		c.Direct(t, func() { replayHistory(p, evalC08); k := loadCase[c08Case](t, p); c.Eval(); c.Report(pbt.DirectTB(t), k, evalC08(k)) })
 		return
 	}
 	avoid := pbt.AvoidTags("C08", "C11", "C13")
 	c.SetRecheck(func(k any) []pbt.Violation { return evalC08(k.(c08Case)) })
+	c.SetPure()
 	c.ReplayKnown(t, func(raw json.RawMessage) []pbt.Violation {
 		var k c08Case
 		_ = json.Unmarshal(raw, &k)
